@@ -588,7 +588,14 @@ def rfa_run(c, x, y):
 def ex_rfa(c):
     x, y = arr(c["x"], c.get("container", "array")), arr(c["y"], c.get("container", "array"))
     c = dict(c)
+    # optional exact translation of the values (a level far above the jumps): recreation commutes with y -> y + L (C07), the
+    # window sizes depend on ratios of jumps only; L = sign * 2**power is added to the input and taken off the output
+    L = c["yoff"][0] * 2.0 ** c["yoff"][1] if c.get("yoff") else 0.0
+    if L:
+        y = [v + L for v in y] if isinstance(y, list) else y + (int(L) if y.dtype.kind in "iu" else L)
     oc, o = guarded(lambda: rfa_run(c, x, y))
+    if L and oc == "ok":
+        o = (o[0], (o[1] - L) if isinstance(o[1], np.ndarray) and o[1].ndim == 1 else o[1]) + tuple(o[2:])
     e = dict(c)
     e["fit_exps"] = e.pop("_fit_exps", [])
     e["exp_bits"] = e.pop("_exp_bits", [0, 0, 0])
@@ -868,9 +875,11 @@ def wcall(w, op):
         return None
     if k == "recreate":
         c = dict(op)
-        cls = getattr(rfa_mod, RFA_CLASSES[op["strategy"]])
+        cls = getattr(rfa_mod, RFA_CLASSES.get(op["strategy"], "FunctionRFA"))
         if op.get("defaults") and op["strategy"] == "ExpAdaptive":       # documented default strategy and parameters
             return w.recreate_from_average(op["n"])
+        if op["strategy"].startswith("Function"):       # FunctionRFA with a user-supplied sampling function, through the Weaver
+            return w.recreate_from_average(op["n"], rfa_class=rfa_mod.FunctionRFA, sampling_function_supplier=_sampler(op["strategy"]))
         return w.recreate_from_average(op["n_f"] if "n_f" in op else op["n"], rfa_class=cls, **rfa_kwargs(c))
     if k == "integral_match":
         kw = {"target_function_integral_method": op["trule"], "reference_function_integral_method": op["rrule"]}
